@@ -11,10 +11,10 @@
                                 probability zero: excluded by the oracle contract O-choice)
      jointp probs ids           product of probs[k][ids[k]]
    The model contains the REPAIRED behaviour of finding F9 (samples_needed < 1 returns the exact weights). *)
-From Coq Require Import QArith Qround Permutation Sorted.
+From Coq Require Import QArith Qabs Qround Permutation Sorted.
 From CKT Require Import Common.Base Extracted.Facts Model.Weights.
 From CKT Require Import Proofs.WeightsP Proofs.WeightsDfs Proofs.WeightsGen Proofs.WeightsTab.
-From CKT Require Import Proofs.WeightsSum Proofs.WeightsCount Proofs.WeightsUnb Proofs.WeightsMachine Proofs.WeightsRef Proofs.WeightsSort Proofs.WeightsTotal Proofs.WeightsBridge.
+From CKT Require Import Proofs.WeightsSum Proofs.WeightsCount Proofs.WeightsUnb Proofs.WeightsMachine Proofs.WeightsRef Proofs.WeightsSort Proofs.WeightsTotal Proofs.WeightsBridge Proofs.WeightsNDraw Proofs.WeightsPublic.
 Open Scope Q_scope.
 
 (* valid probs: every vector is non-negative and sums to 1 (WeightsGen.valid) *)
@@ -107,12 +107,39 @@ Theorem c04_always_served : forall probs perms q tape res,
   gen_weights probs perms (Fin q) tape = Some res -> exists r, res = Ok r.
 Proof. exact always_served. Qed.
 
-(* Bridge between the tape sampler and the expectation functional, for ONE draw (num_desired = 1): the answers of the
-   oracle are the returned key (count 1), one call per level, and the product of the probabilities that were passed to
-   the oracle at the answered indices is ecount of that key.  So under O-choice E[count of ids] = P(answers = ids)
-   = ecount ids 1.  PARTIAL with respect to the general bridge (n draws, multinomial counts), which is OPEN:
-     c04_populate_expectation_open : sum over all admissible tapes of P(tape) * count_ids(populate .. n tape) = ecount .. n ids. *)
-Theorem c04_one_draw_bridge_partial : forall probs cond tape s t lg,
+(* Bridge between the tape sampler `populate` and the expectation functional `ecount`.
+   expect M cond rest rs n f = sum over ALL tapes (n * #levels answers, each index < M) of
+        [product of the probabilities _populate_samples passed to the oracle at the answered indices, read off the call
+         log] * f (samples returned), inadmissible tapes contributing 0.
+   O-choice enters only here: a call choice(range(m), k, p) answers xs with probability prod p[x], independently of the
+   other calls.  For EVERY number of draws n: the tape law has total mass 1, and the expected count of a joint map is
+   n * ecount(.. 1 ..) = ecount(.. n ..).  Hypotheses: the tables in `cond` and the remaining vectors sum to 1 and have
+   at most M entries, no table is keyed by a full state -- all three are PROVED for the dictionary built by
+   _generate_qpd_weights (Proofs/WeightsNDraw.sampler_tables), see c04_sampler_unbiased. *)
+Theorem c04_n_draw_bridge : forall M cond D,
+  (forall st v, dget cond st = Some v -> qsum v == 1 /\ (length v <= M)%nat /\ (length st < D)%nat) ->
+  forall rest, rest <> [] -> Forall (vec_good M) rest ->
+  forall rs nd, (length rs + length rest = D)%nat ->
+    expect M cond rest rs nd (fun _ => 1) == 1 /\
+    forall ids, length ids = length rest ->
+      expect M cond rest rs nd (fun s => nq (cntk key_eqb (rs ++ ids) s)) == nq nd * ecount rest cond rs 1 ids.
+Proof. exact n_draw. Qed.
+
+(* Unbiasedness of the REAL sampling loop, from O-choice alone: when _generate_qpd_weights samples (core = CSample), the
+   expectation over all oracle tapes of the weight  count * single_sample_weight  that a not-exactly-evaluated joint map
+   receives is N * p; and the tape law is a probability law.  (c04_unbiased is the same statement about the functional
+   ecount; this theorem removes the functional.) *)
+Theorem c04_sampler_unbiased : forall probs perms q ret cond nd ssw ids,
+  valid probs -> sorting_perms_b probs perms = true -> nonzero_atol * q <= 1 ->
+  no_entry_in_cutoff probs perms (1 / q) ->
+  gen_core probs perms (Fin q) = Ok (CSample ret cond nd ssw) ->
+  in_range probs ids -> dget ret ids = None ->
+  expect (maxlen probs) cond probs [] nd (fun _ => 1) == 1 /\
+  expect (maxlen probs) cond probs [] nd (fun s => ssw * nq (cntk key_eqb ids s)) == q * jointp probs ids.
+Proof. exact sampler_unbiased. Qed.
+
+(* one draw, pathwise: the answers ARE the returned key (count 1), one call per level, likelihood = ecount *)
+Theorem c04_one_draw_bridge : forall probs cond tape s t lg,
   (forall st v, dget cond st = Some v -> (length st < length probs)%nat) -> probs <> [] ->
   populate probs cond [] 1 tape = Some (s, t, lg) ->
   exists ids, tape = ids ++ t /\ length ids = length probs /\ s = [(ids, 1%nat)] /\
@@ -122,6 +149,24 @@ Proof.
   intros probs cond tape s t lg Hf Ne H.
   destruct (populate_one_draw probs cond Hf probs [] [] tape s t lg eq_refl eq_refl Ne H) as [c Hc]. exists c. exact Hc.
 Qed.
+
+(* The public entry point generate_qpd_weights(bases, N): probabilities = |coeffs| / kappa (kappa = sum |coeffs| <> 0),
+   then the core, then the stable sort.  The probabilities are valid, and the returned dictionary is the core's,
+   rearranged and sorted: lookups, sum of weights and number of entries are unchanged, so every theorem above
+   (exact weights, no zero-probability map, count/sum, unbiasedness, totality) holds for the public function with
+   probs := map basis_probs bases. *)
+Theorem c04_public_wrapper : forall bases perms N tape r,
+  Forall (fun c => ~ qsum (map Qabs c) == 0) bases ->
+  generate_qpd_weights bases perms N tape = Some (Ok r) ->
+  valid (map basis_probs bases) /\
+  exists r0, gen_weights (map basis_probs bases) perms N tape = Some (Ok r0) /\ r = final_sort r0 /\
+    Permutation r r0 /\ StronglySorted sle r /\ NoDup (map fst r0) /\
+    (forall k, dget r k = dget r0 k) /\ wsum r == wsum r0 /\ length r = length r0.
+Proof. exact public_wrapper. Qed.
+
+Theorem c04_public_refuses : forall bases perms tape N,
+  (N = NaN \/ N = NInf \/ exists q, N = Fin q /\ q < 1) -> generate_qpd_weights bases perms N tape = Some Refused.
+Proof. exact public_refuses. Qed.
 
 (* generate_qpd_weights = final_sort of _generate_qpd_weights: a rearrangement sorted by (type value, -weight)
    (sle a b: key a <= key b); keys are pairwise distinct, so every lookup -- hence every theorem above -- transfers
@@ -182,6 +227,27 @@ Example c04_ex_bound_needed :
             Qle_bool (1 / (100000000000000000 # 1)) (jointp exTiny [1; 1; 1; 1]%nat) = true.
 Proof. eexists. split; [vm_compute; reflexivity|split; vm_compute; reflexivity]. Qed.
 
+(* the n-draw bridge on the running example: 3 draws, 2 levels, 3^6 = 729 tapes summed by computation; the tables of the
+   real dictionary satisfy the hypotheses of c04_n_draw_bridge, the tape law has mass 1 and the sampled map (1,0) gets N*p *)
+Example c04_ex_sampler :
+  match gen_core exP exPerms (Fin 4) with
+  | Ok (CSample ret cond nd ssw) =>
+      Qeq_bool (expect (maxlen exP) cond exP [] nd (fun _ => 1)) 1 &&
+      Qeq_bool (expect (maxlen exP) cond exP [] nd (fun s => ssw * nq (cntk key_eqb [1; 0]%nat s))) (4 * jointp exP [1; 0]%nat) &&
+      forallb (fun kv => Qeq_bool (qsum (snd kv)) 1 && Nat.leb (length (snd kv)) (maxlen exP) && Nat.ltb (length (fst kv)) 2) cond &&
+      match dget ret [1; 0]%nat with None => true | Some _ => false end
+  | _ => false
+  end = true.
+Proof. vm_compute. reflexivity. Qed.
+
+(* the public wrapper on coefficients with signs: kappa = 2 and 4 *)
+Example c04_ex_public :
+  generate_qpd_weights [[-1; 1 # 2; 1 # 2]; [1; -3]] exPerms (Fin 4) [1; 0; 1; 1; 0; 0]%nat =
+  Some (Ok [([0; 1], (48 # 32, EXACT)); ([1; 1], (20480 # 24576, SAMPLED));
+            ([1; 0], (20480 # 24576, SAMPLED)); ([0; 0], (20480 # 24576, SAMPLED))]%nat) /\
+  Forall (fun c => ~ qsum (map Qabs c) == 0) [[-1; 1 # 2; 1 # 2]; [1; -3]].
+Proof. split; [vm_compute; reflexivity|repeat constructor; discriminate]. Qed.
+
 (* the machine on the running example (sorted coordinates): 3 yields, pops and a pruned sibling included *)
 Example c04_ex_machine :
   run_machine (fuel_bound (sorted_probs exP exPerms)) (sorted_probs exP exPerms) (1 # 4)
@@ -213,7 +279,11 @@ Print Assumptions c04_machine_refines_spec.
 Print Assumptions c04_final_sort.
 Print Assumptions c04_never_crashes.
 Print Assumptions c04_always_served.
-Print Assumptions c04_one_draw_bridge_partial.
+Print Assumptions c04_one_draw_bridge.
+Print Assumptions c04_n_draw_bridge.
+Print Assumptions c04_sampler_unbiased.
+Print Assumptions c04_public_wrapper.
+Print Assumptions c04_public_refuses.
 Print Assumptions c04_exact_complete.
 Print Assumptions c04_no_zero.
 Print Assumptions c04_infinite.
